@@ -403,6 +403,11 @@ def set_elastic_params(elas_prm_names, elas_prm_dflt_vals,
     elif prmcase == 2:
         # given -- lame_mod, poisson_ratio
         # Neg. poisson and FPEs not possible.
+        if ns['pnu'] == 0.0:
+            # lame_mod > 0 (checked above) is inconsistent with poisson_ratio = 0.
+            raise ValueError(
+                'Specified value of poisson_ratio = 0 is inconsistent ' +
+                'with a positive lame_mod.')
         ns['pe'] = ns['plda']*(1 + ns['pnu'])*(1 - 2 * ns['pnu'])/ns['pnu']
         ns['pg'] = ns['plda']*(1 - 2 * ns['pnu']) / (2*ns['pnu'])
         check_ii(prmcase, eky0, ns['plda'], ivar_pnms['pg'], ns['pg'],
